@@ -43,6 +43,7 @@ func genProxyTimeout() (string, error) {
 			"types.GlobalTimeout":   fmt.Sprint(def),
 		},
 		Calls: map[string]string{"time.Duration": ""},
+		Types: map[string]string{},
 		OptCalls: map[string]string{
 			"headers.Get(types.HeaderTryTimeout)":                  "hdrTry",
 			"headers.Get(types.HeaderGlobalTimeout)":               "hdrGlobal",
